@@ -46,7 +46,7 @@ void harness(void)
 	V_ASSERT(dq.data.max == QMAX && dq.data.base == store && dq.data.off < QMAX, "ring geometry stays valid");
 	for (i = 0; i < QMAX; i++) if (i < fill - rem) V_ASSERT(store[(dq.data.off + i) % QMAX] == model[rem + i], "remaining content keeps its bytes in order");
 	V_ASSERT(dq._state.curr == curr - rem, "processed-bytes offset moves with the removed prefix");
-	V_ASSERT(dq._state.data.pos == pos - rem, "message start moves with the removed prefix");
+	V_ASSERT(dq._state.data.pos == ((pos || mlen) ? pos - rem : 0), "message start moves with the removed prefix");
 	V_ASSERT(dq._state.data.len == mlen, "decoded length unchanged");
 	V_WITNESS_END();
 }
